@@ -119,6 +119,57 @@ type world struct {
 	ghost  map[int]*entry // terminating incarnation left behind by Consolidate
 	events []map[string]any
 	groups map[string]bool
+	dec    int // 1: the real fit functions take the decision of the operation about to be executed
+}
+
+// decision re-takes a placement decision with the REAL code (actions/common.allocateTaskToNode on this
+// node): FittingNode, then for fraction pods gpu_sharing.GetNodePreferableGpuForSharing on a fitting
+// list that starts with the chosen groups (the order is up to the GpuOrderFn plugins), for the others
+// IsTaskAllocatable. Returns 1 if the real code allocates/nominates exactly as the operation says.
+func (w *world) decision(o op) int {
+	var pipelineOnly bool
+	switch o.Op {
+	case "Allocate", "Pipeline":
+		pipelineOnly = false
+	case "PipelineOnly", "Consolidate":
+		pipelineOnly = true
+	default:
+		return 1
+	}
+	t, ni := w.tasks[o.P], w.ni
+	if !ni.IsTaskAllocatableOnReleasingOrIdle(t) {
+		return 0
+	}
+	if !(t.IsFractionRequest() || t.IsMemoryRequest()) {
+		return b2i((!pipelineOnly && ni.IsTaskAllocatable(t)) == (o.Op == "Allocate"))
+	}
+	var list []string
+	nfresh := 0
+	for _, g := range o.Grp {
+		if ni.UsedSharedGPUsMemory[g] != 0 {
+			if !ni.IsTaskFitOnGpuGroup(t.ResReq, g) {
+				return 0
+			}
+			list = append(list, g)
+		} else {
+			nfresh++
+		}
+	}
+	slots := 0
+	if ni.Idle.GPUs() > 0 || ni.Releasing.GPUs() > 0 {
+		slots = int(ni.Idle.GPUs()) + int(ni.Releasing.GPUs())
+	}
+	if nfresh > slots {
+		return 0
+	}
+	for i := 0; i < nfresh; i++ {
+		list = append(list, pod_info.WholeGpuIndicator)
+	}
+	sel := gpu_sharing.GetNodePreferableGpuForSharing(list, ni, t, pipelineOnly)
+	if sel == nil || len(sel.Groups) != len(o.Grp) {
+		return 0
+	}
+	return b2i((pipelineOnly || sel.IsReleasing) == (o.Op != "Allocate"))
 }
 
 func newWorld(sc *scenario) *world {
@@ -138,7 +189,7 @@ func newWorld(sc *scenario) *world {
 	vm := resource_info.NewResourceVectorMap()
 	vm.AddResourceList(alloc)
 	w := &world{sc: sc, vm: vm, tasks: map[int]*pod_info.PodInfo{}, ent: map[int]*entry{}, ghost: map[int]*entry{},
-		groups: map[string]bool{}}
+		groups: map[string]bool{}, dec: 1}
 	w.ni = node_info.NewNodeInfo(node, noAffinity{}, vm)
 	for i := range sc.Kinds {
 		w.tasks[i+1] = w.newTask(i + 1)
@@ -244,6 +295,8 @@ func (w *world) call(o op, callName string) {
 		"ost": ost, "ogrp": ogrp, "err": es}
 	w.project(ev)
 	ev["mm"] = 0
+	ev["dec"] = w.dec
+	w.dec = 1
 	w.events = append(w.events, ev)
 }
 
@@ -251,7 +304,10 @@ func (w *world) call(o op, callName string) {
 // intended entries. Returns false for operations without a node call.
 func (w *world) apply(o op) {
 	switch o.Op {
-	case "SnapAdd", "Allocate", "Pipeline":
+	case "SnapAdd", "Allocate", "Pipeline", "PipelineOnly", "ConvPipeline":
+		// Pipeline = the allocate action nominates (real allocation not possible), PipelineOnly = a solver
+		// simulation, ConvPipeline = ConvertAllAllocatedToPipelined (no fit decision involved)
+		w.dec = w.decision(o)
 		w.ent[o.P] = &entry{o.St, cp(o.Grp), 0}
 		w.call(o, "Add")
 	case "Evict":
@@ -276,6 +332,7 @@ func (w *world) apply(o op) {
 		o.St, o.Grp = "None", []string{}
 		w.call(o, "Remove")
 	case "Consolidate":
+		w.dec = w.decision(o)
 		w.ghost[o.P] = w.ent[o.P]
 		w.ent[o.P] = &entry{"Pipelined", cp(o.Grp), 0}
 		o.St = "Pipelined"
@@ -381,7 +438,7 @@ func runScenario(sc *scenario, out *tracefmt.Writer) (steps, mm int) {
 					errs = ev["err"].(string)
 				}
 			}
-			r := map[string]any{"ev": "Restore", "err": errs, "mm": 0}
+			r := map[string]any{"ev": "Restore", "err": errs, "mm": 0, "dec": 1}
 			for _, k := range []string{"idle", "used", "rel", "idlev", "usedv", "relv", "gm", "present", "npresent", "pods"} {
 				r[k] = last[k]
 			}
@@ -580,6 +637,7 @@ func (x *walker) fittingGPUs(t *pod_info.PodInfo) []string {
 // place = actions/common.allocateTask -> allocateTaskToNode on the single node.
 func (x *walker) place(p int, pipelineOnly bool) bool {
 	w := x.w
+	solver := pipelineOnly
 	t := w.tasks[p]
 	ni := w.ni
 	if !ni.IsTaskAllocatableOnReleasingOrIdle(t) { // FittingNode
@@ -632,7 +690,11 @@ func (x *walker) place(p int, pipelineOnly bool) bool {
 		}
 		return false
 	}
-	x.do(op{"Pipeline", p, "Pipelined", grp})
+	name := "Pipeline"
+	if solver {
+		name = "PipelineOnly"
+	}
+	x.do(op{name, p, "Pipelined", grp})
 	x.log = append(x.log, undoRec{"pipe", p, "None", nil})
 	return true
 }
@@ -732,7 +794,7 @@ func (x *walker) statementA(budget int) {
 			for _, p := range conv {
 				grp := cp(x.w.ent[p].Grp)
 				x.do(op{"Unallocate", p, "None", nil})
-				x.do(op{"Pipeline", p, "Pipelined", grp})
+				x.do(op{"ConvPipeline", p, "Pipelined", grp})
 				rest = append(rest, undoRec{"pipe", p, "None", nil})
 			}
 			x.log = rest
